@@ -11,11 +11,9 @@ def caseScale (j : Json) : R (Outcome Scale) := do
   let s ← field j "scale"
   pure (Scale.ofRaw (← nat (← field s "min")) (← nat (← field s "max")))
 
-def jChars (cs : List Char) : Json := .str (String.ofList cs)
-
 /-- op `fmt`: the figure `d`, its negation (`Neg::neg`), a zero of the same stored scale (what `d + -d` is)
-    and the plain `ZERO`, each as shown at the scale; plus `get_precision(d)` and the register's
-    `amount_to_string(d, 18)` -/
+    and the plain `ZERO`, each as shown at the scale; plus `get_precision(d)` and the rounded decimal
+    (`round_dp_with_strategy`) of `d` and `-d` in stored form -/
 def opFmt (j : Json) : R Json := do
   let d ← dec (← field j "d")
   match ← caseScale j with
@@ -28,8 +26,8 @@ def opFmt (j : Json) : R Json := do
       ("neg", .str (shown sc d.negate)),
       ("zero_same", .str (shown sc ⟨false, 0, d.scale⟩)),
       ("zero", .str (shown sc Dec.zero)),
-      ("amount18", jChars (amountToString sc d 18)),
-      ("neg_amount18", jChars (amountToString sc d.negate 18))])
+      ("rounded", .str (d.roundHA (sc.getPrecision d)).toString),
+      ("neg_rounded", .str (d.negate.roundHA (sc.getPrecision d.negate)).toString)])
 
 def jShownRow (r : ShownRow) : Json :=
   .arr #[.str r.comm, .str (acctName r.acct), .str r.own, .str r.tree]
